@@ -14,4 +14,11 @@ for spec in "F5 C11 revert-F5" "F3 C13 revert-F3" "F2 C13 revert-F2" "F7 C15 rev
   grep -E "^VIOLATION" $S/out.txt | head -3 || echo "no violation for $1?!"
   rm -rf $S
 done
+# F8 needs the focused scenario family (colliding process identities, same-size declarations)
+rm -rf $S; mkdir -p $S; cp -r /repo/bisturi $S/bisturi; rm -rf $S/bisturi/__pycache__
+(cd $S && patch -p1 -s -i /verif/bsim/mutant_patches/revert-F8.diff)
+rm -rf regress/F8; mkdir -p regress/F8
+BSIM_REPO=$S BSIM_NO_EVIDENCE=1 BSIM_REPLAY_DIR=/verif/regress/F8 ./check C16 --focus colliding-writers --runs 60000 > $S/out.txt 2>&1 || true
+grep -E "^VIOLATION" $S/out.txt | head -3 || echo "no violation for F8?!"
+rm -rf $S
 ./check regress
